@@ -34,7 +34,9 @@ class ModeSim(Sim):
               "flag_flip_between_build_and_backward", "step_inside_user_ctx", "kernel_fault_inside_ctx", "body_raise", "rejected_call_escapes",
               "backward_inside_no_grad", "interior_kept_marked", "interior_kept_retain_ctx", "interior_released", "nograd_result",
               "int_requires_grad_refused", "nonleaf_flag_change_refused", "backward_on_nograd_refused", "mixed_retain_case_not_asserted",
-              "exit_by_exception", "exit_normal", "depth3plus", "module_freeze_unfreeze"]
+              "exit_by_exception", "exit_normal", "depth3plus", "module_freeze_unfreeze",
+              "floating_context_entered", "contexts_of_different_kinds_overlap_without_nesting", "same_kind_non_lifo_not_asserted",
+              "initialiser_call_inside_contexts", "initialiser_call_refused"]
     RULE = ("one run = a generated block tree of no_grad/retain_grads contexts (constructed possibly earlier and in another mode than where "
             "entered; exits normal or by exception caught 1-6 levels up) with leaf/op/flag/backward/step events inside; distinct = hash of the "
             "block tree with event kinds and exit modes; non-trivial = at least one context was left")
@@ -51,6 +53,7 @@ class ModeSim(Sim):
             "reenter": rng.random() < 0.4,
             "ops": sorted(rng.sample(MODE_OPS, rng.randint(5, len(MODE_OPS)))),
             "ints": rng.random() < 0.5,
+            "floating": rng.random() < 0.4,
         }
 
     # ------------------------------------------------------------------ state
@@ -70,6 +73,11 @@ class ModeSim(Sim):
         st.opt = None
         st.left = 0
         st.px = None            # behavioural probes, built lazily while the mode is the default one
+        st.open = []            # every open context in enter order: ("w", ctx id, kind) for with-blocks, ("f", fid, kind) for floating ones
+        st.floats = {}          # fid -> dict(obj, kind, saved)
+        st.next_float = 0
+        st.messy = {"no_grad": False, "retain_grads": False}   # a same-kind non-LIFO exit happened: that kind is resynchronised, not asserted
+        st.caught = []
         return st
 
     def _build_probes(self, st):
@@ -107,6 +115,19 @@ class ModeSim(Sim):
             return {"k": "ctx_new", "ctx": cid, "kind": rng.choice(["no_grad", "no_grad", "retain_grads"])}
         if r < kn["p_enter"] + 0.05:
             return {"k": "ctx_new", "ctx": st.next_ctx, "kind": rng.choice(["no_grad", "retain_grads"])}
+        if kn.get("floating") and r < kn["p_enter"] + 0.13:
+            # contexts that overlap WITHOUT nesting: a generator holding a with-block across yields, ExitStack, explicit enter/exit
+            if st.floats and rng.random() < 0.55:
+                return {"k": "float_exit", "fid": rng.choice(sorted(st.floats))}
+            if len(st.floats) < 3:
+                return {"k": "float_enter", "fid": st.next_float, "kind": rng.choice(["no_grad", "retain_grads"])}
+        if r < kn["p_enter"] + 0.17 and st.T:
+            fl = [i for i in sorted(st.T) if st.T[i].data.dtype.kind == "f"]
+            if fl:
+                # an initialiser call from inside whatever contexts are open (valid, refused, or interrupted): it is not a mode operation
+                return {"k": "init_call", "t": rng.choice(fl), "fn": rng.choice(["uniform_", "normal_", "zeros_", "xavier_uniform_", "xavier_normal_", "kaiming_uniform_", "constant_"]),
+                        "bad": rng.choice([None, None, "std_neg", "gain_neg", "nan_bound"]), "escape": rng.random() < 0.3,
+                        "fault": ({"kind": rng.choice(["alloc", "interrupt", "exit"]), "seam": "line", "at": rng.randint(1, 30)} if rng.random() < kn["p_fault"] * 3 else None)}
         leaves = [i for i, m in st.meta.items() if m["kind"] == "leaf"]
         if len(leaves) < 2 or rng.random() < 0.08:
             return self._gen_leaf(rng, st)
@@ -122,6 +143,8 @@ class ModeSim(Sim):
                 ev = {"k": "op", "op": name, "in": ins, "args": args, "out": list(range(st.next_id, st.next_id + nout))}
                 if rng.random() < kn["p_fault"]:
                     ev["fault"] = {"kind": rng.choice(["alloc", "interrupt", "exit"]), "at": rng.randint(1, 2)}
+                    if rng.random() < 0.5:
+                        ev["fault"].update(seam="line", at=rng.randint(1, 80))
                 return ev
         if r < 0.58:
             rg = [i for i in ids if st.T[i].requires_grad]
@@ -164,6 +187,7 @@ class ModeSim(Sim):
 
     # ------------------------------------------------------------------ interpreter
     def execute(self, st, source):
+        self._observed_mode(st)          # builds the behavioural probes while the mode is the default one
         self._block(st, source, 0)
         self.finish(st)
 
@@ -212,6 +236,8 @@ class ModeSim(Sim):
         if depth + 1 >= 3:
             st.probes["depth3plus"] += 1
         saved = (st.m_grad, st.m_retain)
+        entry = ("w", ev["ctx"], kind, object())
+        st.open.append(entry)
         st.stack.append((ev["ctx"], kind))
         st.sig.append("(" + kind[0] + ("c" if ev["catch"] else ""))
         escaped = None
@@ -241,6 +267,7 @@ class ModeSim(Sim):
             st.m_grad = saved[0]
         else:
             st.m_retain = saved[1]
+        self._closed(st, entry)
         st.left += 1
         st.nontrivial = True
         st.probes["exit_by_exception" if escaped is not None else "exit_normal"] += 1
@@ -252,6 +279,30 @@ class ModeSim(Sim):
                     st.probes["unwound_through_2plus_contexts"] += 1
                 return
             raise escaped
+
+    def _closed(self, st, entry):
+        """bookkeeping when a context (with-block or floating) is left; the model variable has already been set to the value saved at
+        ITS enter.  Overlap of different kinds is plain: they govern different modes.  A same-kind non-LIFO exit is not asserted
+        (a shared per-kind stack would be a legitimate design): that kind is resynchronised from the system until none is open."""
+        kind = entry[2]
+        idx = next(n for n, e in enumerate(st.open) if e is entry)
+        later_same = any(e[2] == kind for e in st.open[idx + 1:])
+        later_other = any(e[2] != kind for e in st.open[idx + 1:])
+        del st.open[idx]
+        if later_same:
+            st.messy[kind] = True
+            st.ever_messy = True
+            st.probes["same_kind_non_lifo_not_asserted"] += 1
+        elif later_other:
+            st.probes["contexts_of_different_kinds_overlap_without_nesting"] += 1
+        if st.messy[kind]:
+            obs = self._observed_mode(st)
+            if kind == "no_grad":
+                st.m_grad = obs[0]
+            else:
+                st.m_retain = obs[1]
+            if not any(e[2] == kind for e in st.open):
+                st.messy[kind] = False
 
     # ------------------------------------------------------------------ oracle pieces
     def _observed_mode(self, st):
@@ -329,6 +380,82 @@ class ModeSim(Sim):
         getattr(self, "_ev_" + k)(st, ev)
         self._check_mode(st, f"after {k}")
 
+    def _ev_float_enter(self, st, ev):
+        sg = st.SG.sg
+        kind = ev["kind"]
+        obj = sg.no_grad() if kind == "no_grad" else sg.retain_grads()
+        saved = st.m_grad if kind == "no_grad" else st.m_retain
+        try:
+            obj.__enter__()
+        except Exception as e:
+            st.fail("C07.ctx_protocol", f"entering {kind} raised {type(e).__name__}: {e}")
+        entry = ("f", ev["fid"], kind, object())
+        st.open.append(entry)
+        st.floats[ev["fid"]] = {"obj": obj, "kind": kind, "saved": saved, "entry": entry}
+        st.next_float = max(st.next_float, ev["fid"] + 1)
+        if kind == "no_grad":
+            st.m_grad = False
+        else:
+            st.m_retain = True
+        st.probes["floating_context_entered"] += 1
+
+    def _ev_float_exit(self, st, ev, final=False):
+        f = st.floats.pop(ev["fid"], None)
+        if f is None:
+            st.skipped += 1
+            return
+        try:
+            f["obj"].__exit__(None, None, None)
+        except Exception as e:
+            st.fail("C07.ctx_protocol", f"leaving {f['kind']} raised {type(e).__name__}: {e}")
+        if f["kind"] == "no_grad":
+            st.m_grad = f["saved"]
+        else:
+            st.m_retain = f["saved"]
+        self._closed(st, f["entry"])
+        st.left += 1
+        st.nontrivial = True
+
+    def _ev_init_call(self, st, ev):
+        SG = st.SG
+        t = st.T.get(ev["t"])
+        if t is None or t.data.dtype.kind != "f":
+            st.skipped += 1
+            return
+        init = SG.init
+        fn, bad = ev["fn"], ev.get("bad")
+        f = getattr(init, fn)
+        args, kw = [t], {}
+        if fn == "constant_":
+            args.append(0.5)
+        if bad == "std_neg" and fn == "normal_":
+            kw = {"mean": 0.0, "std": -1.0}
+        elif bad == "gain_neg" and fn.startswith("xavier"):
+            kw = {"gain": -1.0}
+        elif bad == "nan_bound" and fn == "uniform_":
+            args += [float("nan"), 1.0]
+        rg = bool(t.requires_grad)
+        try:
+            with quiet(), SEAM.armed(ev.get("fault")):
+                f(*args, **kw)
+            st.probes["initialiser_call_inside_contexts"] += 1
+        except SimFault as e:
+            st.faults["F2.init_line_" + ev["fault"]["kind"]] += 1
+            st.caught.append(e)
+            self._check_mode(st, f"after {fn} was interrupted by an injected fault")
+            if ev.get("escape"):
+                self._escape(st, e, "kernel_fault_escapes")
+        except Exception as e:
+            # refused (rank < 2 for xavier/kaiming, std < 0, ...): the program catches it, or lets it unwind the open contexts
+            st.probes["initialiser_call_refused"] += 1
+            st.caught.append(e)
+            del st.caught[:-3]
+            self._check_mode(st, f"after {fn} refused its arguments ({type(e).__name__})")
+            if ev.get("escape"):
+                self._escape(st, e, "rejected_call_escapes")
+        if bool(t.requires_grad) != rg:
+            st.fail("C07.leaf_flag", f"{fn} changed requires_grad of the tensor it filled ({rg} -> {t.requires_grad})")
+
     def _ev_ctx_new(self, st, ev):
         sg = st.SG.sg
         obj = sg.no_grad() if ev["kind"] == "no_grad" else sg.retain_grads()
@@ -365,14 +492,12 @@ class ModeSim(Sim):
         xs = [st.T[i] for i in ev["in"]]
         flags = [bool(x.requires_grad) for x in xs]
         fault = ev.get("fault")
-        if fault:
-            SEAM.arm(fault["kind"], fault["at"])
         try:
-            with quiet():
+            with quiet(), SEAM.armed(fault):
                 res = ops.as_list(ops.apply_op(SG, ev["op"], xs, ev["args"]))
         except SimFault as e:
             SEAM.disarm()
-            st.faults["F2.kernel_" + fault["kind"]] += 1
+            st.faults[f"F2.{fault.get('seam', 'kernel')}_{fault['kind']}"] += 1
             if st.depth > 0:
                 st.probes["kernel_fault_inside_ctx"] += 1
             self._check_mode(st, "after an op aborted by an injected kernel fault")
@@ -597,7 +722,10 @@ class ModeSim(Sim):
         self._check_nograd(st, "after backward")
 
     def finish(self, st):
+        for fid in sorted(st.floats, reverse=True):
+            self._ev_float_exit(st, {"fid": fid})
+            self._check_mode(st, "after leaving a floating context at the end of the run")
         self._check_nograd(st, "at the end of the run")
-        if (st.m_grad, st.m_retain) != (True, False):
+        if (st.m_grad, st.m_retain) != (True, False) and not getattr(st, "ever_messy", False):
             st.fail("C07.harness", "model stack not unwound at the end of a run")
         self._check_mode(st, "after all contexts were left")
